@@ -216,7 +216,13 @@ class Check:
             "broken": [{"kind": b["kind"], "name": b["name"], "count": b["count"]} for b in self.broken],
         }
         if self.exhaustive is not None:
-            cov["exhaustive"] = self.exhaustive
+            # the schema wants a boolean ("the run enumerated a finite space completely"); checks that enumerate
+            # finite SUB-spaces next to random cases describe them in a dict, reported under its own key
+            if isinstance(self.exhaustive, bool):
+                cov["exhaustive"] = self.exhaustive
+            else:
+                cov["exhaustive"] = False
+                cov["exhaustive_subspaces"] = self.exhaustive
         cov.update(self.extra)
         ev = {
             "property_id": self.prop,
